@@ -1,5 +1,5 @@
-import CardVerif.Model.Pot
-import CardVerif.Spec.SidePot
+import CardModel.Model.Pot
+import CardModel.Spec.SidePot
 import CardVerif.Proofs.PotConserve
 import CardVerif.Proofs.SidePot
 /-!
